@@ -19,10 +19,23 @@ from harness.common import Check, coq_float, coq_bool
 META = {
     "property_id": "C11",
     "design_ref": "DESIGN.md §4 C11",
-    "technique": "Coq proof over the reals about the Gallina model of matrix_inverse_root (oracle-in-the-loop for eigh) + correspondence evaluated by vm_compute in binary64 + measured float32/float64 residuals",
-    "level_text": "under construction",
-    "level_note": "under construction",
-    "ready": False,
+    "technique": "Coq proof over the reals about the Gallina model of matrix_inverse_root (torch.linalg.eigh as an oracle whose recorded answer is an input of the model) "
+                 "+ correspondence evaluated by vm_compute in binary64 inside coqc + certified checker on the implementation's output + measured float32/float64 residuals",
+    "level_text": "Proved in Coq (13 theorems, props/C11.v; real-number instance of the model, stdlib real axioms only; shape/root guards closed and valid for every scalar instance): for ANY size n, "
+                  "any symmetric A (no PSD assumption), eps > 0, any positive rational root and any answer (L, Q) of eigh satisfying its contract (query = Q diag(L) Q^T, Q orthogonal), the matrix returned by "
+                  "the eigendecomposition path of matrix_inverse_root - with and without enhance_stability - is symmetric, positive definite (x^T X x > 0), has all eigenvalues <= eps^e "
+                  "(x^T X x <= eps^e x^T x; e = the negative binary32-rounded exponent actually used), commutes with A, does not depend on which valid decomposition eigh returns "
+                  "(spectral_fun_unique, lambda_min included) and is orthogonally equivariant X(P A P^T) = P X(A) P^T; the numel==1 path has the same properties for every real entry, negative included; "
+                  "inputs with numel > 1 that are not square 2-D are rejected with ValueError whatever the configuration, root and flag; root <= 0 is rejected on the eigen and diagonal paths. "
+                  "Tie: the same Gallina term, run in binary64 on generated zero / rank-deficient / slightly indefinite / PSD / repeated-spectrum matrices (n = 1..12, scales 1e-6..1e6, 10 roots, both "
+                  "stability settings), non-square / non-2-D shapes and roots <= 0, agrees with the real routine (normwise 1e-9, exception classes, the matrix handed to eigh); a certified checker "
+                  "(C11_checkb, sound over the reals) evaluates symmetry, commutation, positive Rayleigh quotients <= eps^e on the implementation's own output. "
+                  "MEASURED, not proved (labelled so in the evidence): finiteness and the size of the symmetry / PD / cap / commutation / equivariance residuals of the real routine in float32 and float64 "
+                  "for n up to 64 relative to n*u*cond; the eigh contract residuals; the double-precision retry.",
+    "level_note": "Trusted: Coq kernel + vm_compute; the hand-written model (checked against the code only on generated inputs); the oracle contract for torch.linalg.eigh with BOTH Q^T Q = I and Q Q^T = I "
+                  "(measured every run, never proved); torch.pow = real power on positive bases; nothing is claimed about rounding error of the binary64/binary32 executions beyond the measured constants. "
+                  "Newton / higher-order solvers with a non-positive root are outside the model (the code returns NaNs or fails in math.log2 instead of rejecting).",
+    "ready": True,
 }
 
 U = {"float32": 2.0 ** -24, "float64": 2.0 ** -53}
@@ -153,6 +166,8 @@ def obs_term(case: dict, obs: dict) -> str:
         return f"(ObsRaise {EXN[obs['exc']]})" if obs["exc"] in EXN else "ObsOther"
     X = obs["X"]
     n = case["shape"][0] if len(case["shape"]) == 2 and math.prod(case["shape"]) > 1 else 1
+    if X.numel() != n * n:
+        return "ObsOther"
     rows = X.reshape(n, n).tolist()
     if obs["iter"]:
         fl, it, err = obs["iter"][-1]
@@ -393,8 +408,11 @@ def measure_one(A, p: int, q: int, eps: float, enh: bool, seed: int, dtype: str)
     Ad = (Ad + Ad.T) / 2
     root = Fraction(p, q)
     cfg = EigenConfig(enhance_stability=enh)
-    with quiet():
-        X = mf.matrix_inverse_root(Ad, root, cfg, epsilon=eps)
+    try:
+        with quiet():
+            X = mf.matrix_inverse_root(Ad, root, cfg, epsilon=eps)
+    except Exception as ex:  # noqa
+        return {"finite": False, "raised": type(ex).__name__ + ": " + str(ex)[:100]}
     res: dict = {"finite": bool(torch.isfinite(X).all()), "dtype_ok": X.dtype == tdt}
     if not res["finite"]:
         return res
@@ -420,8 +438,14 @@ def measure_one(A, p: int, q: int, eps: float, enh: bool, seed: int, dtype: str)
     P = rand_orth(n, seed)
     B64 = P @ A64 @ P.T
     B = ((B64 + B64.T) / 2).to(tdt)
-    with quiet():
-        XB = mf.matrix_inverse_root(B, root, cfg, epsilon=eps)
+    try:
+        with quiet():
+            XB = mf.matrix_inverse_root(B, root, cfg, epsilon=eps)
+    except Exception as ex:  # noqa
+        res["equiv_finite"] = False
+        res["raised"] = type(ex).__name__ + ": " + str(ex)[:100]
+        res["equiv_c"] = float("inf")
+        return res
     res["equiv_finite"] = bool(torch.isfinite(XB).all())
     res["equiv_c"] = float((XB.double() - P @ X64 @ P.T).norm()) / float(X64.norm()) / nuc if res["equiv_finite"] else float("inf")
     return res
@@ -479,7 +503,7 @@ def retry_check() -> list[str]:
 
 def gen_measure_inputs(rng, thorough: bool):
     sizes = [1, 2, 3, 5, 8, 13, 21, 32, 48, 64]
-    reps = 6 if thorough else 1
+    reps = 12 if thorough else 2
     kinds = ["zero", "rankdef", "indef", "psd", "indef", "repeated"]
     out = []
     k = 0
@@ -518,7 +542,7 @@ def run(ck: Check) -> None:
     thorough = ck.tier == "thorough"
 
     # ---- 1. the tie: model (binary64, recorded eigh answer) vs implementation ----------------------
-    cases = gen_eigen_cases(ck.rng, 2400 if thorough else 150) + gen_guard_cases(ck.rng)
+    cases = gen_eigen_cases(ck.rng, 2800 if thorough else 280) + gen_guard_cases(ck.rng)
     observations = [observe(c) for c in cases]
     agree_col = [agree_term(c, o) for c, o in zip(cases, observations)]
     query_col = [query_term(c, o) for c, o in zip(cases, observations)]
@@ -578,7 +602,7 @@ def run(ck: Check) -> None:
         what = None
         if not r["finite"] or not r.get("equiv_finite", True):
             nonfinite += 1
-            what = "non-finite inverse root"
+            what = "non-finite inverse root" if "raised" not in r else "unexpected exception " + r["raised"]
         else:
             for k in worst:
                 worst[k] = max(worst[k], r[k])
